@@ -221,6 +221,17 @@ def run(tier, seed, prop='C01'):
     chk.count('SYMEX', 'discharged', 0.0, 'SYMEX:minify/transition relation extracted: %d (state, token class) cases of the real loop body, '
               'each with a control-state successor that is a function of (state, class)' % len(table))
     ground.account(chk, wiring())
+    if prop == 'C01':
+        try:
+            w = minify.token_weights()
+            ok = w.get('TokName') == [1] and w.get('TokLabel') == [1] and w.get('TokString') == [1] and w.get('TokComment') == [0] and \
+                w.get('TokSpace') == [0] and w.get('TokNewline') == [0] and all(isinstance(v, list) and None not in v for v in w.values())
+            chk.count('SYMEX', 'discharged' if ok else 'failed', 0.0, 'SYMEX:stats/in Lua.get_token_count a name, a label and a string token weigh 1 whatever '
+                      'their text, trivia weighs 0, and every other token keeps its text through the minifier: the stats token count is unchanged')
+            if not ok:
+                chk.violation('SYMEX:stats/the stats weight of a renamed or re-spelled token depends on its text', {'weights': str(w)}, False)
+        except SymErr as e:
+            chk.undecide('Lua.get_token_count left the supported subset: %s' % e)
     fuse = {k: v for k, v in rs[0][0].items() if k in rs[1][0]}
     chk.extra['fuse_relation'] = {'pairs_fusing_under_every_admitted_reading': len(fuse), 'product_states': [r[1]['states'] for r in rs],
                                   'token_classes': rs[0][1]['classes']}
